@@ -55,10 +55,30 @@ UNW = [
     ('ensures', '[C15] otherwise every undo entry whose kind is add, remove or replace is replayed exactly once, last entry first, with its own operation (watched entry: any)',
      '(vx_state != state_type_commit && vx_ekind[vx_k] <= op_type_replace) ==> (!vx_order_bad && vx_k_replays == 1 && vx_k_kind == vx_ekind[vx_k])'),
 ]
+D_LOOP = '''__CPROVER_assigns(vx_it, vx_copied, vx_copy_bad)
+  __CPROVER_loop_invariant(vx_ntok >= 1 && vx_it <= vx_ntok - 1 && vx_copied == vx_it && !vx_copy_bad)
+  __CPROVER_decreases(vx_ntok - 1 - vx_it)'''
+D_RULES = [
+    (r'using char_type = typename Json::char_type;', '', 1), (r'using string_type = std::basic_string<char_type>;', '', 1),
+    (r'auto rit = location\.rbegin\(\);\s*if \(rit == location\.rend\(\)\)', 'if (vx_ntok == 0)', 1), (r'\*rit != jsonpatch_names<char_type>::dash_name\(\)', '!vx_last_is_dash', 1),
+    (r'return location;', 'vx_returned_same = true; return;', 3), (r'std::vector<string_type> tokens;', '', 1),
+    (r'for \(auto it = location\.begin\(\); it != ([^;]+); \+\+it\)', r'for (size_t vx_it = 0; vx_it != (\1); ++vx_it)', 1), (r'location\.rbegin\(\)\.base\(\)', 'vx_ntok', 1), (r'tokens\.push_back\(\*it\);', 'vx_copy_token(vx_it);', 1),
+    (r'jsonpointer::basic_json_pointer<char_type> pointer\(tokens\);', '', 1), (r'std::error_code ec;', 'int ec = 0;', 1),
+    (r'Json val = jsonpointer::get\(root, pointer, ec\);', 'if (!vx_parent_ok) ec = 1;', 1), (r'!val\.is_array\(\)', '!vx_parent_is_array', 1),
+    (r'val\.size\(\)', 'vx_parent_size', 1, 2), (r'string_type last_token;\s*jsoncons::from_integer\(([^;]+?), last_token\);\s*tokens\.emplace_back\(std::move\(last_token\)\);', r'vx_appended = true; vx_appended_value = (\1);', 1),
+    (r'return jsonpointer::basic_json_pointer<char_type>\(std::move\(tokens\)\);', 'vx_returned_new = true; return;', 1),
+]
+DEF = [
+    ('requires', 'vx_ntok <= 100000000 && vx_copied == 0 && !vx_returned_same && !vx_returned_new && !vx_appended && !vx_copy_bad'),
+    ('assigns', 'vx_copied, vx_copy_bad, vx_returned_same, vx_returned_new, vx_appended, vx_appended_value'),
+    ('ensures', '[C15] a location whose last token is "-" and whose parent is an array becomes the same location with "-" replaced by the number of elements of that array (the position the element will get), every other location is returned as it is',
+     '(vx_ntok >= 1 && vx_last_is_dash && vx_parent_ok && vx_parent_is_array) ? (vx_returned_new && !vx_returned_same && !vx_copy_bad && vx_copied == vx_ntok - 1 && vx_appended && vx_appended_value == vx_parent_size) : (vx_returned_same && !vx_returned_new)'),
+]
 SPECS = [
     EnumSpec('jsonpatch_errc', 'include/jsoncons_ext/jsonpatch/jsonpatch_error.hpp'), EnumSpec('op_type', J), EnumSpec('state_type', J),
     FuncSpec('patch_operation', J, r'void apply_patch\(Json& target, const Json& patch, std::error_code& ec\)', count=1, csig='void patch_operation(int* ec_p)', contract=OPC, rules=OP_RULES,
              slice_from=r'unwinder\.state\s*=\s*jsoncons::jsonpatch::detail::state_type::begin;', slice_to=r'\}\s*if \(unwinder\.state\s*==\s*jsoncons::jsonpatch::detail::state_type::begin\)', prologue='int local_ec = 0;'),
+    FuncSpec('definite_path', J, r'definite_path\(const Json& root, jsonpointer::basic_json_pointer<typename Json::char_type>& location\)', count=1, csig='void definite_path(void)', contract=DEF, rules=D_RULES, loops={0: D_LOOP, 'count': 1}),
     FuncSpec('unwinder_replay', J, r'~operation_unwinder\(\) noexcept', count=1, csig='void unwinder_replay(void)', contract=UNW, rules=U_RULES, loops={0: LOOP, 'count': 1}),
 ]
 SITE_CHECKS = [
@@ -67,5 +87,6 @@ SITE_CHECKS = [
 ]
 HARNESSES = [
     Harness('patch_operation', 'h_patch_operation', enforce='patch_operation', method='LF', props=['C15'], note='the body of the loop over the operations of a patch, for every operation name and every outcome of every document edit'),
+    Harness('definite_path', 'h_definite_path', enforce='definite_path', loop_contracts=True, method='LC', props=['C15'], expect_classes={'loop_invariant_step': 1}),
     Harness('unwinder_replay', 'h_unwinder_replay', enforce='unwinder_replay', loop_contracts=True, method='LC', props=['C15'], expect_classes={'loop_invariant_step': 1}, note='replay steps are taken not to fail (they undo edits that just succeeded)'),
 ]
